@@ -479,7 +479,7 @@ def plss_project(d, a):
         tracts.append({
             "trs": _chars(t.trs), "attrs": trs_attrs_from_obj(t),
             "whole": _is_whole(t.desc, pp), "verbatim": t.desc == pp,
-            "orig_ok": t.orig_desc == a["text"], "source_ok": t.source == a.get("source", "SRC-1"),
+            "orig_ok": t.orig_desc == a["text"], "source_ok": t.source == a.get("source", "SRC-1") and type(t.source) is type(a.get("source", "SRC-1")),
             "index": t.orig_index if isinstance(t.orig_index, int) else -1,
             "markers": [m for m in marks if isinstance(t.desc, str) and R.marker(m) in t.desc],
             "wflags": [_intern(table, f) for f in t.w_flags], "eflags": [_intern(table, f) for f in t.e_flags],
@@ -1628,6 +1628,14 @@ def c07(case):
                 if tk.preprocess(clean_qq=kw) != want or tk.preprocess(clean_qq=kw, commit=True) != want or tk.pp_desc != want:
                     same = False if a["all_recognised"] else same
                     fixed = False
+        # the same spelling as the description block of a PLSSDesc: the tract it hands down reads it alike
+        if a["all_recognised"]:
+            cfgp = "parse_qq,clean_qq" if clean else "parse_qq"
+            dp = pytrs.PLSSDesc("T154N-R97W Sec 14: " + text, config=cfgp)
+            dq = pytrs.PLSSDesc("T154N-R97W Sec 14: " + canon, config=cfgp)
+            if [(t_.pp_desc, tuple(t_.qqs), tuple(t_.lots)) for t_ in dp.tracts] != \
+                    [(t_.pp_desc, tuple(t_.qqs), tuple(t_.lots)) for t_ in dq.tracts]:
+                same = False
         toks, pos = [], 0
         for m in _PP_TOK.finditer(pp):
             if pp[pos:m.start()].strip():
